@@ -609,10 +609,21 @@ func (p *parser) parseAlterTable(raw string) (*Constraint, error) {
 	if p.atEOF() {
 		return nil, p.syntaxErr(p.peek(), "incomplete ALTER TABLE")
 	}
+	if p.isOp("*") {
+		return nil, p.unsupported(p.peek(), "ALTER TABLE name * is not modelled")
+	}
+	if t := p.peek(); t.kind != tIdent {
+		return nil, p.syntaxErr(t, "expected an ALTER TABLE action, found %s", t.describe())
+	}
 
 	switch {
 	case p.isKw("ADD"):
 		p.next()
+		if t := p.peek(); t.kind == tQIdent {
+			return nil, p.unsupported(t, "quoted identifiers are not modelled")
+		} else if t.kind != tIdent {
+			return nil, p.syntaxErr(t, "expected a column or constraint definition after ADD, found %s", t.describe())
+		}
 		if p.acceptKw("CONSTRAINT") {
 			c.Name, err = p.parseName("constraint name")
 			if err != nil {
